@@ -8,7 +8,7 @@ import (
 	"verif/internal/props/pcommon"
 )
 
-const quickN, thoroughN = 2500, 200000
+const quickN, thoroughN = 25000, 1500000
 
 const rule = "programs: 1-4 coroutines (create and wrap) whose generated bodies emit their arguments, keep a local across suspensions, yield payloads of 0-4 values directly, from nested Lua calls of depth 1-6, from loops, " +
 	"resume each other (status normal seen from inside), create closures shared with the main chunk, and end by return / tail call / tail-called yield / error(string|table) / fall-through; " +
